@@ -1019,7 +1019,7 @@ def unroll(model):
                 return None if s is None else dict(s, tails=[("item", t) for t in py_resolve(s["tails"], ctx)])
             it = ("eqn", it[1], flat(it[2]), flat(it[3]))
         items.append(("item", it))
-    return {"context": ctx, "nodes": items}
+    return with_funcs(model, {"context": ctx, "nodes": items})
 
 
 # =====================================================================================
@@ -1211,16 +1211,92 @@ class NotInLanguage(Exception):
     pass
 
 
+# The preparser context also carries the user functions called by the equations.  They are DATA of the structured
+# model (model["funcs"] = {"cf1": [a, b], "cf2": [a, b]}: cf1(x) = x*a + b, cf2(x, y) = a*x + b*y), so that two models of
+# one session can bind the same function name to different callables while their source text is the same.
+DEFAULT_FUNCS = {"cf1": [0.5, 1.0], "cf2": [1.0, -2.0]}
+CF1_CHOICES = [[0.5, 1.0], [2.0, 0.0], [0.25, 2.0], [1.5, 0.5], [3.0, 1.0], [1.0, 0.75]]
+CF2_CHOICES = [[1.0, -2.0], [0.5, 1.0], [2.0, 0.5], [1.0, 1.0], [-1.0, 2.0], [0.25, -0.5]]
+
+
+def make_user_function(name, coef):
+    a, b = float(coef[0]), float(coef[1])
+    if name == "cf1":
+        def cf1(x):
+            return x * a + b
+        return cf1
+
+    def cf2(x, y):
+        return a * x + b * y
+    return cf2
+
+
+def model_funcs(model):
+    return dict(DEFAULT_FUNCS, **(model.get("funcs") or {}))
+
+
 def _cf1(x):
-    return x * 0.5 + 1
+    return make_user_function("cf1", DEFAULT_FUNCS["cf1"])(x)
 
 
 def _cf2(x, y):
-    return x - 2 * y
+    return make_user_function("cf2", DEFAULT_FUNCS["cf2"])(x, y)
 
 
 def impl_context(model):
-    return dict(model["context"], cf1=_cf1, cf2=_cf2)
+    """a fresh dict with fresh callables on every call (nothing is shared between two compilations)"""
+    return dict(model["context"], **{n: make_user_function(n, c) for n, c in model_funcs(model).items()})
+
+
+def with_funcs(model, new):
+    """the derived model keeps the user functions of the model it was derived from"""
+    if model.get("funcs") is not None and "funcs" not in new:
+        new["funcs"] = model["funcs"]
+    return new
+
+
+def calls_user_function(model) -> bool:
+    def fe(e):
+        if isinstance(e, (list, tuple)):
+            if len(e) >= 2 and e[0] == "call" and e[1] in ("cf1", "cf2"):
+                return True
+            return any(fe(x) for x in e)
+        if isinstance(e, dict):
+            return any(fe(x) for x in e.values())
+        return False
+    return fe(model["nodes"])
+
+
+def other_funcs(r, funcs):
+    """another binding of BOTH names (so that whichever the equations call differs)"""
+    cur = dict(DEFAULT_FUNCS, **(funcs or {}))
+    return {"cf1": r.choice([c for c in CF1_CHOICES if c != list(cur["cf1"])]),
+            "cf2": r.choice([c for c in CF2_CHOICES if c != list(cur["cf2"])])}
+
+
+def inject_user_calls(model, r):
+    """wrap the right-hand side of some equations (dynamic and steady variants) into a call of a user function"""
+    hit = [False]
+
+    def fs(sd):
+        if sd is None or r.random() < 0.4:
+            return sd
+        hit[0] = True
+        if r.random() < 0.6:
+            return dict(sd, rhs=("call", "cf1", [sd["rhs"]]))
+        return dict(sd, rhs=("call", "cf2", [sd["rhs"], sd["lhs"]]))
+
+    def fn(n):
+        if n[0] == "item":
+            it = n[1]
+            if it[0] == "eqn":
+                return ("item", ("eqn", it[1], fs(it[2]), fs(it[3])))
+            return n
+        if n[0] == "for":
+            return ("for", n[1], n[2], [fn(x) for x in n[3]])
+        return ("if", n[1], [fn(x) for x in n[2]], [fn(x) for x in n[3]] if n[3] is not None else None)
+    new = dict(model, nodes=[fn(n) for n in model["nodes"]])
+    return new if hit[0] else model
 
 
 def parse_number(v):
@@ -1486,8 +1562,12 @@ def session_variants(model, r, feats):
             swapped = True
     if swapped:
         out.append(("other-kind", {"context": ctx, "nodes": [n for u in units for n in u]}))
+    # V6: the same text and the same preparser values, the user functions bound to other callables
+    if calls_user_function(model):
+        out.append(("other-functions", dict(model, funcs=other_funcs(r, model.get("funcs")))))
     good = []
     for what, m in out:
+        m = with_funcs(model, m)
         if "shift-bare" in feats:
             m = _atomise_shift(m)
         if valid_model(m):
@@ -1500,14 +1580,23 @@ def gen_session(rng, feats, n_random=0):
     import random
     r = random.Random(rng.getrandbits(64))
     base = gen_case(r, feats)
+    rf = random.Random(r.getrandbits(64))
+    if rf.random() < 0.6:
+        # user functions of the context in the equations, bound to callables of this model's own
+        injected = inject_user_calls(base, rf)
+        if valid_model(injected):
+            base = injected
+    if calls_user_function(base) and rf.random() < 0.7:
+        base = dict(base, funcs={"cf1": rf.choice(CF1_CHOICES), "cf2": rf.choice(CF2_CHOICES)})
     sess = [("rendering", base, Render(random.Random(r.getrandbits(64)), feats=feats).source(base)) for _ in range(n_random)]
     base_seed = r.getrandbits(64)
     sess.append(("base", base, Render(random.Random(base_seed), feats=feats, stable=True).source(base)))
     variants = session_variants(base, r, feats)
     r.shuffle(variants)
+    variants.sort(key=lambda v: v[0] != "other-functions")     # other callables for the same text: always part of it
     for what, m in variants[:r.choice([2, 3])]:
         # another context: the source text is identical to the base, character for character
-        seed = base_seed if what == "other-context" else r.getrandbits(64)
+        seed = base_seed if what in ("other-context", "other-functions") else r.getrandbits(64)
         sess.append((what, m, Render(random.Random(seed), feats=feats, stable=True).source(m)))
     if r.random() < 0.5:      # and the base once more at the end of the session
         sess.append(("base-again", base, Render(random.Random(base_seed), feats=feats, stable=True).source(base)))
@@ -1575,7 +1664,7 @@ def malform(model, g, r):
         nodes += [("item", ("kw", "qty", "TV", 0)), q("zz_v"), ("item", ("kw", "eqn", "T", 0)),
                   ("item", ("eqn", [], {"lhs": ("name", lit("zz_v"), ("z", 0, "curly")), "assign": False,
                                         "rhs": ("name", lit("zz_nowhere"), ("z", -1, "curly")), "tails": []}, None))]
-    return {"context": model["context"], "nodes": nodes, "malformed": kind}
+    return with_funcs(model, {"context": model["context"], "nodes": nodes, "malformed": kind})
 
 
 def _atomise_shift(model):
@@ -1613,7 +1702,7 @@ def _atomise_shift(model):
         if n[0] == "for":
             return ("for", n[1], n[2], [fn(x) for x in n[3]])
         return ("if", n[1], [fn(x) for x in n[2]], [fn(x) for x in n[3]] if n[3] is not None else None)
-    return {"context": model["context"], "nodes": [fn(n) for n in model["nodes"]]}
+    return with_funcs(model, {"context": model["context"], "nodes": [fn(n) for n in model["nodes"]]})
 
 
 def shard_text(cases) -> str:
@@ -1788,6 +1877,9 @@ PSEUDO_DEFAULT = {"shift": -1, "diff": -1, "diff_log": -1, "difflog": -1, "pct":
                   "mov_sum": -4, "movsum": -4, "mov_avg": -4, "movavg": -4, "mov_prod": -4, "movprod": -4}
 
 
+_CUR_FUNCS = {}     # the user functions of the model being evaluated by the reference (set by check_equations)
+
+
 def ref_eval(e, env, ctx, subs, shift=0):
     """value of the expression as written (documented meaning), env(name, k) -> array"""
     k = e[0]
@@ -1809,7 +1901,8 @@ def ref_eval(e, env, ctx, subs, shift=0):
             return {"Add": lambda: a + b, "Sub": lambda: a - b, "Mul": lambda: a * b, "Div": lambda: a / b,
                     "Pow": lambda: np.float64(a) ** b}[e[1]]()
         if k == "call":
-            return NPF[e[1]](*[ref_eval(a, env, ctx, subs, shift) for a in e[2]])
+            fn = _CUR_FUNCS[e[1]] if e[1] in _CUR_FUNCS else NPF[e[1]]
+            return fn(*[ref_eval(a, env, ctx, subs, shift) for a in e[2]])
         if k == "subs":
             return ref_eval(subs[e[1]], env, ctx, subs, shift)
         if k == "pseudo":
@@ -1921,13 +2014,15 @@ def _same(a, b, tol=1e-8):
     return bool(np.all(np.where(bad_a | bad_b, bad_a & bad_b, ok)))
 
 
-def check_model(model, src, rng_seed, key_prefix="") -> list:
-    """All property checks for one source; returns Failures."""
+def check_model(model, src, rng_seed, key_prefix="", alive=None) -> list:
+    """All property checks for one source; returns Failures.  alive: list that receives the compiled model (kept by the
+    caller to evaluate it again later in the session)"""
     import irispie as ir
     fails = []
     ref = reference_model(model)
-    inp = {"source": src, "context": model["context"], "model": model, "data_seed": rng_seed}
-    repro = "irispie.Simultaneous.from_string(source, context=context)"
+    inp = {"source": src, "context": model["context"], "functions": model_funcs(model), "model": model, "data_seed": rng_seed}
+    repro = ("irispie.Simultaneous.from_string(source, context=context | {cf1: lambda x: x*a1+b1, cf2: lambda x, y: a2*x+b2*y}) "
+             "with [a1, b1], [a2, b2] = functions['cf1'], functions['cf2']")
     try:
         m = ir.Simultaneous.from_string(src, context=impl_context(model))
     except Exception as e:  # noqa
@@ -1951,7 +2046,24 @@ def check_model(model, src, rng_seed, key_prefix="") -> list:
     if {k: bool(v) for k, v in ls.items()} != want_ls:
         fails.append(Failure(key_prefix + "quantities:log-status", "get_log_status() differs from the !log-variables declaration",
                              inp, {k: bool(v) for k, v in ls.items()}, want_ls, repro + ".get_log_status()"))
-    # 2. equations evaluate to rhs - lhs as written, on arbitrary data
+    fails += check_equations(m, model, ref, inp, rng_seed, key_prefix, repro)
+    if alive is not None:
+        alive.append((m, model, ref, inp, rng_seed, repro))
+    return fails
+
+
+def check_equations(m, model, ref, inp, rng_seed, key_prefix, repro) -> list:
+    """2. equations evaluate to rhs - lhs as written, on arbitrary data, with the user functions of THIS model's context"""
+    global _CUR_FUNCS
+    _CUR_FUNCS = {n: make_user_function(n, c) for n, c in model_funcs(model).items()}
+    try:
+        return _check_equations(m, model, ref, inp, rng_seed, key_prefix, repro)
+    finally:
+        _CUR_FUNCS = {}
+
+
+def _check_equations(m, model, ref, inp, rng_seed, key_prefix, repro) -> list:
+    fails = []
     name_to_qid = m.create_name_to_qid()
     nq = len(name_to_qid)
     ctx, subs = ref["context"], ref["subs"]
@@ -2084,22 +2196,82 @@ def sweep_model():
     return {"context": {}, "nodes": nodes + eqs}, what
 
 
+def _session_input(sess, j, seed, f):
+    return {"session": [{"what": w, "source": s0, "context": m0["context"], "functions": model_funcs(m0), "model": m0}
+                        for w, m0, s0 in sess[:j + 1]],
+            "failing": j, "data_seed": seed, "detail": {k: v for k, v in (f.input or {}).items()
+                                                        if k in ("equation", "human", "xtring")}}
+
+
+SESSION_REPRO = ("in ONE Python process: models = [irispie.Simultaneous.from_string(s['source'], context=s['context'] | "
+                 "{'cf1': lambda x: x*a1+b1, 'cf2': lambda x, y: a2*x+b2*y}) for s in input['session']] with "
+                 "[a1, b1], [a2, b2] = s['functions']['cf1'], s['functions']['cf2']; check models[input['failing']]")
+
+
 def check_session(sess, seed, key_prefix="session:"):
-    """compile and check the sources of a session one after the other in this process; a failure names the source
-    and carries the whole sequence compiled so far as its input"""
+    """compile and check the sources of a session one after the other in this process, all models kept alive; then
+    evaluate every model of the session once more (last compiled first: what was compiled later must not have changed
+    it), and a deep copy of it.  A failure names the source and carries the whole sequence compiled so far as its input"""
+    import copy
     out = []
+    alive = []
     for j, (what, model, src) in enumerate(sess):
-        fs = check_model(model, src, seed + j)
+        fs = check_model(model, src, seed + j, alive=alive)
         if fs:
             f = fs[0]
             alone = "" if j == 0 else " (source %d of a session: %s of the model compiled first)" % (j + 1, what)
-            inp = {"session": [{"what": w, "source": s0, "context": m0["context"], "model": m0} for w, m0, s0 in sess[:j + 1]],
-                   "failing": j, "data_seed": seed, "detail": {k: v for k, v in (f.input or {}).items()
-                                                               if k in ("equation", "human", "xtring")}}
-            out.append(Failure((key_prefix if j > 0 else "") + f.key, f.what + alone, inp, f.observed, f.required,
-                               "in ONE Python process: for s in input['session']: "
-                               "irispie.Simultaneous.from_string(s['source'], context=s['context']); check the last one"))
-            break
+            out.append(Failure((key_prefix if j > 0 else "") + f.key, f.what + alone, _session_input(sess, j, seed, f),
+                               f.observed, f.required, SESSION_REPRO))
+            return out
+    if len(alive) != len(sess):
+        return out
+    for j in reversed(range(len(sess))):
+        m, model, ref, inp, rng_seed, repro = alive[j]
+        for how, obj in (("alive", lambda: m), ("copy", lambda: copy.deepcopy(m))):
+            if how == "alive" and j == len(sess) - 1:
+                continue
+            try:
+                fs = check_equations(obj(), model, ref, inp, rng_seed, "", repro)
+            except Exception as e:  # noqa
+                fs = [Failure("eval:raises", f"{type(e).__name__}: {str(e)[:200]}", inp)]
+            if fs:
+                f = fs[0]
+                note = (" (source %d of %d of a session, evaluated again after the later ones were compiled)" % (j + 1, len(sess))
+                        if how == "alive" else " (deep copy of model %d of %d of a session)" % (j + 1, len(sess)))
+                inp2 = _session_input(sess, len(sess) - 1, seed, f)
+                inp2["failing"], inp2["how"] = j, how
+                out.append(Failure(f"{key_prefix}{how}:{f.key}", f.what + note, inp2, f.observed, f.required,
+                                   SESSION_REPRO + (" after all of them were created" if how == "alive" else
+                                                    " on copy.deepcopy of it")))
+                return out
+    return out
+
+
+def functions_probe():
+    """fixed session: the SAME source text four times, the context binding cf1 / cf2 to other callables each time"""
+    def nm(n, k=0):
+        return ("name", lit(n), ("z", k, "curly"))
+
+    def q(n):
+        return ("item", ("qty", [], lit(n)))
+
+    def eq(lhs, rhs, steady=None):
+        sd = None if steady is None else {"lhs": lhs, "assign": False, "rhs": steady, "tails": []}
+        return ("item", ("eqn", [], {"lhs": lhs, "assign": False, "rhs": rhs, "tails": []}, sd))
+    B = lambda o, a, b: ("bin", o, "caret", a, b)   # noqa
+    kw = lambda k, x: ("item", ("kw", k, x, 0))   # noqa
+    eqs = [eq(nm("y"), B("Add", B("Add", B("Mul", nm("a"), nm("y", -1)), ("call", "cf1", [nm("b")])), nm("e"))),
+           eq(nm("r"), B("Add", B("Mul", nm("b"), nm("r", 1)), ("call", "cf2", [nm("y"), nm("r", -1)])),
+              ("call", "cf1", [nm("y", -1)]))]
+    nodes = [kw("qty", "TV"), q("y"), q("r"), kw("qty", "P"), q("a"), q("b"), kw("qty", "TS"), q("e"), kw("eqn", "T")] + eqs
+    import random
+    out = []
+    for i, (what, funcs) in enumerate([("base", None), ("other-functions", {"cf1": [2.0, 0.0], "cf2": [0.5, 1.0]}),
+                                       ("other-functions", {"cf1": [0.25, 2.0], "cf2": [1.0, 1.0]}), ("base-again", None)]):
+        m = {"context": {}, "nodes": nodes}
+        if funcs:
+            m["funcs"] = funcs
+        out.append((what, m, Render(random.Random(3), noisy=False, stable=True).source(m)))
     return out
 
 
@@ -2201,6 +2373,11 @@ def falsify(ctx, hints):
         fs, _ = pool.apply(_session_worker, ((session_probe(), 99),))
     info["probes"]["session"] = "ok" if not fs else fs[0].what[:160]
     fails += fs
+    # 1d. a fixed session of one source text compiled with contexts that bind the user functions to other callables
+    with mp.get_context("fork").Pool(1) as pool:
+        fs, _ = pool.apply(_session_worker, ((functions_probe(), 4711),))
+    info["probes"]["session-functions"] = "ok" if not fs else fs[0].what[:160]
+    fails += fs
     # 2. inputs on which model and implementation disagreed (with what was compiled before them in the same process)
     for d in hints.get("disagreements", [])[:10]:
         inp = d.get("input") or {}
@@ -2235,8 +2412,11 @@ def replay(ctx, failure: dict):
     inp = failure.get("input") or {}
     if "session" in inp:
         sess = [(x["what"], x["model"], x["source"]) for x in inp["session"]]
+        for x, (_w, mdl, _s) in zip(inp["session"], sess):
+            if x.get("functions") and "funcs" not in mdl:
+                mdl["funcs"] = x["functions"]
         for f in check_session(sess, inp.get("data_seed", 1)):
-            if f.input["failing"] == inp.get("failing"):
+            if f.input["failing"] == inp.get("failing") and f.input.get("how") == inp.get("how"):
                 return Failure(failure["key"], f.what, f.input, f.observed, f.required, f.repro)
         return None
     if "model" in inp and "source" in inp:
